@@ -20,7 +20,7 @@ from props.c20 import FIELDS, Addr2, Addr4, Int, Str, cval, jv, uj
 from props.c20 import cps as _cps_raw
 
 PROP = "C18"
-MODULES = ["C18"]
+MODULES = ["C18", "C18p"]
 GEN = ["Proto", "Storage"]
 MATCHERS = {}
 # extra files for the drift detector (the property's own anchors are always included)
